@@ -371,6 +371,12 @@ def gen_reccol():
   Rp = [R('Rp', x, ('rec', (('a', x), ('b', y))), body=(Lit('A', x, y),)), Ann('@NoInject(Rp);')]
   yield Case('EXPR', Program(Rp + [R('T', V('p'), V('q'), body=(Lit('Rp', x, V('r')), Eq(V('p'), ('fld', V('r'), 'a')), Eq(V('q'), ('fld', V('r'), 'b'))))]), ['T', 'Rp'])
   yield Case('EXPR', Program(Rp + [R('T', x, ('fld', V('r'), 'b'), body=(Lit('Rp', x, V('r')), Cmp('>', ('fld', V('r'), 'a'), N(1))))]), ['T'])
+  # the same record written with its fields in different orders: one value
+  rab = ('rec', (('a', x), ('b', y))); rba = ('rec', (('b', y), ('a', x)))
+  yield Case('RECORD-FIELD-ORDER', Program([R('T', x, body=(Lit('A', x, y), Cmp('==', rab, rba)))]), ['T'])
+  yield Case('RECORD-FIELD-ORDER', Program([R('T', x, V('r'), body=(Lit('A', x, y), Eq(V('r'), rab), Eq(V('r'), rba)))]), ['T'])
+  yield Case('RECORD-FIELD-ORDER', Program([R('T', V('r'), body=(('or', ((Lit('A', x, y), Eq(V('r'), rab)), (Lit('A', x, y), Eq(V('r'), rba)))),), distinct=True)]), ['T'])
+  yield Case('RECORD-FIELD-ORDER', Program([R('P', named={'r': rab}, body=(Lit('A', x, y),)), R('P', named={'r': rba}, body=(Lit('A', x, y),)), R('T', V('r'), body=(Lit('P', r=V('r')),), distinct=True), R('U', lang.Aggr('Count', V('r')), body=(Lit('P', r=V('r')),), distinct=True)]), ['T', 'U'], info='keyless')
   # two levels of record destructuring ahead of the literal that binds the outer record, and behind it
   Rn = [R('Rn', x, ('rec', (('b', ('rec', (('a', x), ('c', y)))), ('n', y))), body=(Lit('A', x, y),)), Ann('@NoInject(Rn);')]
   q_, p_, rec_, outer_ = V('q'), V('p'), V('rec'), V('outer')
